@@ -23,6 +23,7 @@ EXPLANATION = (
     "(4) rule-type options — decision table of parse_filter over format x rule_types x detected type."
     ' Later additions: the JSON keys of ParseOptions / RuleTypes / FilterFormat are the established ones (read from the derived field visitors); every location of a cosmetic line is recorded or the line is rejected (no iteration of the location loop falls through); parse_filter forwards what the parsers return unchanged (closures that only call Into::into); the per-line loops contain no truncating adapter or `break`; ParseOptions::permissions applies to the rules of its own list (C18.2).'
     ' Round 6: in the standard format detect_filter_type and both rule parsers receive line.trim() itself; every option is recorded or the line rejected (C03.9 borrowed).'
+    ' Round 8: hosts entries and `||host^` rules go through the one host normalisation (C02.7 borrowed).'
 )
 NOT_DECIDED = "That the accepted grammar is the intended one; behaviour of the regex / idna / addr dependencies."
 
@@ -33,6 +34,9 @@ def check(run):
         from analysis.guards import rule_visits_all as _rva
         run.guard("C11.6.every-line", cfg, lambda: _rva(run, "C11.6.every-line", F, cfg, ['lists::parse_filters_with_metadata', 'lists::FilterSet::add_filters', 'lists::FilterSet::add_filter_list'],
                   'Every line of a list is parsed on its own: a rejected line must not end the walk over the remaining lines', minimum=2))
+        from . import C01 as _C01e
+        be = run.borrow("C01", why="what a list contributes is what its lines parse to under the options given with it: the entry points between the parsers and the stores neither skip nor remember lines")
+        run.guard("C11.via.C01.9.entry-points", cfg, lambda: _C01e.rule_entry_points(be, F, cfg))
         from . import C02 as _C02h
         bh = run.borrow("C02", only=r"ascii-host|host-verbatim|www-", why="a hosts entry must name the same host as `||entry^`: both go through the one host normalisation of NetworkFilter::parse (lower-case, strip `www.`, then punycode of exactly that text)")
         run.guard("C11.via.C02.7.host-verbatim", cfg, lambda: (_C02h.rule_host_verbatim(bh, F, cfg), _C02h.rule_ascii_host_verbatim(bh, F, cfg)))
